@@ -36,6 +36,7 @@ RoOutcomes(impl, st, c) ==
     ELSE IF c.op \in RoMutatingH THEN
         (IF ~ValidH(st, c) THEN {Strict(Fail("NOHANDLE", st))} ELSE Refused(st) \cup {Strict(Fail("CLOSED", st))})
     ELSE IF c.op \in {"subwrite", "submkdir"} THEN SubThenMutate(impl, st, c)
+    ELSE IF c.op \in {"vsetuser", "vsetuserbyname"} THEN Refused(st)      \* the user of a read-only file system is fixed
     ELSE Outcomes(impl, st, c)
 
 (***************************************************************************)
@@ -75,6 +76,7 @@ SinglePrim(c) ==
       [] c.op = "fstat" -> "FileStat" [] c.op = "fsync" -> "FileSync" [] c.op = "fchmod" -> "FileChmod"
       [] c.op = "fchown" -> "FileChown" [] c.op = "fchdir" -> "FileChdir" [] c.op = "close" -> "FileClose"
       [] c.op = "freaddir" -> "FileReadDir" [] c.op = "freaddirnames" -> "FileReaddirnames"
+      [] c.op = "abs" -> "Abs" [] c.op = "vsetuser" -> "SetUser" [] c.op = "vsetuserbyname" -> "SetUserByName"
       [] OTHER -> "none"
 
 FOut(o, cons, x) == [res |-> o.res, st |-> o.st, kf |-> o.kf, inv |-> o.inv, skip |-> o.skip,
